@@ -11,6 +11,7 @@ import (
 // ---------------------------------------------------------------------------
 
 type reqCtx struct {
+	overlap bool // (unsubscribe) sent while a subscribe/get on the same rid was outstanding
 	clean  bool // sent at an internally quiet state with no other request on the rid outstanding
 	direct int  // client's count at send time
 	held   bool
@@ -22,6 +23,7 @@ type CountMon struct {
 	prevQuiet bool
 	seenRsp   []int
 	known     map[*PendingReq]bool
+	overlap   map[string]bool
 }
 
 func (m *CountMon) Step(w *World, _ string) {
@@ -41,12 +43,16 @@ func (m *CountMon) Step(w *World, _ string) {
 			}
 			m.known[p] = true
 			others := 0
+			ov := false
 			for _, q := range c.Client.Pending {
 				if q != p && q.RID == p.RID && q.Action != "version" {
 					others++
+					if q.Action == "subscribe" || q.Action == "get" {
+						ov = true
+					}
 				}
 			}
-			m.ctx[p] = &reqCtx{clean: m.prevQuiet && others == 0 && len(w.MQ.Pending()) == 0, direct: c.Client.Direct[p.RID], held: c.Client.Holds(p.RID)}
+			m.ctx[p] = &reqCtx{overlap: ov && p.Action == "unsubscribe",clean: m.prevQuiet && others == 0 && len(w.MQ.Pending()) == 0, direct: c.Client.Direct[p.RID], held: c.Client.Holds(p.RID)}
 		}
 		rs := c.Client.Resp
 		for _, r := range rs[m.seenRsp[i]:] {
@@ -59,7 +65,14 @@ func (m *CountMon) Step(w *World, _ string) {
 				// sent and answered within one action
 				cx = &reqCtx{clean: false}
 			}
-			if p.Action == "unsubscribe" && cx.clean {
+			if p.Action == "unsubscribe" && cx.overlap && !r.IsErr {
+				// known-finding context: the unsubscribe consumed the count taken by the outstanding request
+				if m.overlap == nil {
+					m.overlap = map[string]bool{}
+				}
+				m.overlap[c.Label+" "+p.RID] = true
+			}
+			if p.Action == "unsubscribe" && cx.clean && !c.Client.Ambiguous[p.RID] {
 				want := ""
 				switch {
 				case p.BadCount:
@@ -134,11 +147,15 @@ func (m *CountMon) compare(w *World, end bool) {
 		}
 		sort.Strings(list)
 		for _, r := range list {
-			if busy[r] {
+			if busy[r] || c.Client.Ambiguous[r] {
 				continue
 			}
 			if cs.subs[r] != c.Client.Direct[r] {
-				w.Fail("C08", "count-mismatch", "%s: gateway holds %d direct subscription(s) on %s but responses and events add up to %d", c.Label, cs.subs[r], r, c.Client.Direct[r])
+				kind := "count-mismatch"
+				if m.overlap[c.Label+" "+r] {
+					kind = "unsubscribe-overlap:count-mismatch"
+				}
+				w.Fail("C08", kind, "%s: gateway holds %d direct subscription(s) on %s but responses and events add up to %d", c.Label, cs.subs[r], r, c.Client.Direct[r])
 			}
 		}
 	}
@@ -156,7 +173,7 @@ func (m *CountMon) End(w *World) {
 				continue
 			}
 			cx := m.ctx[p]
-			if cx == nil || !cx.clean || cx.direct != 0 || cx.held {
+			if cx == nil || !cx.clean || cx.direct != 0 || cx.held || c.Client.Ambiguous[p.RID] {
 				continue
 			}
 			name, q := splitKey(strings.ReplaceAll(p.RID, "{cid}", c.CID))
